@@ -39,6 +39,19 @@ func (c *ConstraintError) Unwrap() error {
 	return c.Cause
 }
 
+// inputConversionError turns an error from converting raw input into the schema's type into a ConstraintError,
+// so that the lists, maps and objects the value is nested in can add the path that leads to it.
+func inputConversionError(err error) error {
+	var c *ConstraintError
+	if errors.As(err, &c) {
+		return err
+	}
+	return &ConstraintError{
+		Message: "The value cannot be converted to the expected type",
+		Cause:   err,
+	}
+}
+
 // ConstraintErrorAddPathSegment adds a path segment if a ConstraintError is found.
 func ConstraintErrorAddPathSegment(err error, pathSegment string) error {
 	var c *ConstraintError
